@@ -10,11 +10,11 @@ cp -r /repo/. $d/ && rm -rf $d/.git
 git -C /repo show --format= $c -- '*.go' ':!*_test.go' > $d/.rev.diff
 (cd $d && patch -R -p1 -s --no-backup-if-mismatch -f < .rev.diff >/dev/null 2>&1) || { echo "$pid $c: NOAPPLY"; exit 0; }
 (cd $d && go build ./... >/dev/null 2>&1) || { echo "$pid $c: NOBUILD"; exit 0; }
-out=$(${GENQLCHECK:-/verif/bin/genqlcheck} -repo $d -property $pid -no-evidence 2>&1 | grep -E '^(VIOLATED|UNDECIDED)' | head -2 | cut -c1-160 | tr '\n' ' ')
+out=$(timeout 600 ${GENQLCHECK:-/verif/bin/genqlcheck} -repo $d -property $pid -no-evidence 2>&1 | grep -E '^(VIOLATED|UNDECIDED)' | head -2 | cut -c1-160 | tr '\n' ' ')
 own=DETECTED
 if [ -z "$out" ]; then
   own=MISSED
-  out=$(${GENQLCHECK:-/verif/bin/genqlcheck} -repo $d -property all -no-evidence 2>&1 | grep -E '^(VIOLATED|UNDECIDED)' | head -2 | cut -c1-160 | tr '\n' ' ')
+  out=$(timeout 600 ${GENQLCHECK:-/verif/bin/genqlcheck} -repo $d -property all -no-evidence 2>&1 | grep -E '^(VIOLATED|UNDECIDED)' | head -2 | cut -c1-160 | tr '\n' ' ')
   [ -n "$out" ] && own=OTHER-PROPERTY
 fi
 echo "$pid $c: $own $out"
